@@ -72,11 +72,11 @@ PROPS["C19"] = {
         {"name": "grpcmw", "pkg": "goa.design/goa/v3/grpc/middleware", "pkgdir": "grpc/middleware", "pkgname": "middleware", "harness_dir": "grpcmw",
          "files": ["zz_verif_c19.go"], "quick": r"^VerifC19_", "thorough": r"^VerifC19T?_"},
     ],
-    "bounds": {"quick": {"inbound_id_bytes": "0..4", "limit": "-1..6 (symbolic)", "sampling_percent": "0..100 (symbolic)", "chain_depth": "2-3", "capture_writes": "1-3 with arbitrary short counts"},
+    "bounds": {"quick": {"inbound_id_bytes": "0..4", "limit": "-1..6 (symbolic)", "sampling_percent": "0..100 (symbolic)", "chain_depth": "2-3", "capture_writes": "1-3 with arbitrary short counts", "discard": "paths of 1-4 ASCII bytes against one discard pattern, with/without inbound trace", "adaptive_sampler": "sample size 2-4, max rate 1..1000: requests of the first window"},
                "thorough": {"chain_depth": "2-4"}},
     "assumptions": ["fresh ids (crypto/rand + base64) are arbitrary 8-byte strings; math/rand.Intn(n) returns an arbitrary value in [0,n)",
                     "the gRPC wire delivers the client's outgoing metadata as the server's incoming metadata; the HTTP wire delivers the request headers"],
-    "outside": ["adaptive sampler rate arithmetic (float division by wall-clock durations)", "discard patterns (regexp on request path)", "a request id already present in the context",
+    "outside": ["adaptive sampler rate arithmetic after the first window (float division by wall-clock durations)", "a request id already present in the context",
                 "log middleware and xray/canceler sub-packages"],
     "manifest": {
         "text": "Bounded model checking of the real request-id and trace middlewares (middleware.GenerateRequestID, options, http/middleware.RequestID, Trace, tracedDoer, ResponseCapture; grpc/middleware unary+stream request-id and trace interceptors, setTrace, withTrace, MetadataValue, WrappedServerStream) with the real context, net/http header and grpc metadata code interpreted: for every option combination, every inbound header/metadata value up to 4 bytes, every limit in -1..6 and every sampling percentage 0..100 with an arbitrary random draw, the solver shows the context request id is non-empty and equals the truncated inbound value exactly when trusted, inbound traces are kept with the caller's span as parent and a fresh span, chains of 2-3 (thorough 4) hops through traced clients (HTTP and gRPC, unary and stream, with or without hops forwarding their incoming metadata) share one trace with parent(n+1)=span(n), percentages 0 and 100 are exact, and ResponseCapture reports the status passed and the byte counts the inner writer actually returned for arbitrary short writes.",
